@@ -360,6 +360,21 @@ def gen_tie_httpx():
                           pre=[("sig2coq.py", "GeneratedSig.v", "GenSigP.v")])
 
 
+H11_THEOREMS = ["gen_copy_buffer_fresh", "gen_rb_iadd_spec", "gen_rb_extract_spec", "gen_h11_full_from", "gen_h11_full", "gen_h11_extract_lines_eq", "gen_h11_lines_eq",
+                "gen_h11_assert_unreachable", "gen_h11_consumed", "gen_h11_none_keeps_data", "C07_translated_read_payload_h11", "C07_translated_read_payload_h11_split",
+                "C07_translated_total_h11"]
+
+
+def gen_tie_h11():
+    """h11's ReceiveBuffer (__init__, __iadd__, _extract, maybe_extract_lines) AS INSTALLED and pyp0f's copy_buffer -> Gallina over an explicit buffer state
+    (translate/h112coq.py; the one regular expression b"\\n\\r?\\n" is read literally and bound to the hand-written find_blank_end of Gen/GenH11Lib.v), proved equal to the
+    hand model's extract_lines for every byte string (coq/Gen/GenH11P.v), and composed with the translated read_payload of the http2coq tie."""
+    return gen_tie_single("h11", "h112coq.py", "GeneratedH11.v", ["GenH11P.v"], H11_THEOREMS,
+                          ["Model/Text.v", "Model/HttpRead.v", "Spec/C07.v", "Proofs/TextP.v", "Proofs/HttpReadP.v", "Model/SigParse.v", "../translate/sig2coq.py", "../translate/http2coq.py",
+                           "Gen/GenSigP.v", "Gen/GenHttpP.v"],
+                          pre=[("sig2coq.py", "GeneratedSig.v", "GenSigP.v"), ("http2coq.py", "GeneratedHttp.v", "GenHttpP.v")], lib=["GenH11Lib.v"])
+
+
 EFF_THEOREMS = ["exec_call_frame", "gen_fingerprint_calls_write_nothing", "gen_fingerprint_calls_only_copy_their_input", "gen_http_buffer_only_converted_to_bytes",
                 "gen_impersonate_tcp_writes_only_rng", "gen_impersonate_mtu_writes_only_its_packet_variant", "gen_impersonate_mtu_writes_only_its_packet",
                 "gen_database_readers_write_nothing", "gen_database_load_writes_only_self", "gen_no_global_object_written", "gen_call_summary_total",
@@ -532,6 +547,8 @@ def run_check(prop, tier, replay=None):
                 ties.append(("Gen/GenSigP.v:", "Gen/GenSigP.v", " && translate/sig2coq.py /repo coq/Gen/GeneratedSig.v && coqc Gen/GeneratedSig.v Gen/GenSigP.v Gen/GenSigC.v", gen_tie_sig()))
             if "httpx" in spec:
                 ties.append(("Gen/GenHttpP.v:", "Gen/GenHttpP.v", " && translate/http2coq.py /repo coq/Gen/GeneratedHttp.v && coqc Gen/GeneratedHttp.v Gen/GenHttpP.v Gen/GenHttpC.v", gen_tie_httpx()))
+            if "h11" in spec:
+                ties.append(("Gen/GenH11P.v:", "Gen/GenH11P.v", " && translate/h112coq.py /repo coq/Gen/GeneratedH11.v && coqc Gen/GenH11Lib.v Gen/GeneratedH11.v Gen/GenH11P.v", gen_tie_h11()))
             if "eff" in spec:
                 ties.append(("Gen/GenEffP.v:", "Gen/GenEffP.v", " && translate/eff2coq.py /repo coq/Gen/GeneratedEff.v && coqc Gen/GenEffLib.v Gen/GeneratedEff.v Gen/GenEffP.v", gen_tie_eff()))
             if "file" in spec:
@@ -559,7 +576,7 @@ def run_check(prop, tier, replay=None):
             if x in GEN_GROUPS:
                 last.append(GEN_GROUPS[x][1][-1])
         last += {"imp": ["GenImpC.v"], "sig": ["GenSigC.v"], "file": ["GenDbC.v"], "httpx": ["GenHttpC.v"]}.get("imp" if "imp" in spec else "", [])
-        for k, f in (("sig", "GenSigC.v"), ("file", "GenDbC.v"), ("httpx", "GenHttpC.v"), ("eff", "GenEffP.v")):
+        for k, f in (("sig", "GenSigC.v"), ("file", "GenDbC.v"), ("httpx", "GenHttpC.v"), ("eff", "GenEffP.v"), ("h11", "GenH11P.v")):
             if k in spec:
                 last.append(f)
         FORCE_TIE[0] = True
@@ -567,7 +584,7 @@ def run_check(prop, tier, replay=None):
         fcntl.flock(lock, fcntl.LOCK_EX)          # one thorough tie re-check at a time (the inner lock is taken per tie)
         try:
             groups = [x for x in spec if x in GEN_GROUPS]
-            redo = ([gen_tie(groups)] if groups else []) + [f() for k, f in (("imp", gen_tie_imp), ("sig", gen_tie_sig), ("file", gen_tie_file), ("httpx", gen_tie_httpx), ("eff", gen_tie_eff)) if k in spec]
+            redo = ([gen_tie(groups)] if groups else []) + [f() for k, f in (("imp", gen_tie_imp), ("sig", gen_tie_sig), ("file", gen_tie_file), ("httpx", gen_tie_httpx), ("eff", gen_tie_eff), ("h11", gen_tie_h11)) if k in spec]
             chk = []
             if all(r["ok"] for r in redo):
                 for f in last:
@@ -771,6 +788,10 @@ def run_check(prop, tier, replay=None):
                       "LITERALLY from the source and refused if different: the regex ^HTTP/1\\.(?P<version>\\d)$ (as Python applies it: `$` also matches before one trailing LF), "
                       "the regex ,(?![^\\[]*\\]) = the model's hsplit, h11's maybe_extract_lines = the model's extract_lines, bytes.split(None, 2) / strip / lower / partition = "
                       "Model/Text.v + Model/HttpRead.v functions; Gen/GenHttpP.v + GenHttpC.v re-checked on every run")
+        if "h11" in spec:
+            tb.append("translator translate/h112coq.py (h11/_receivebuffer.py AS INSTALLED + pyp0f's copy_buffer -> functions over an explicit buffer state): its reading of the subset (slices, "
+                      "del, in-place edits of list elements as a map, the assert as an explicit outcome proved unreachable); ASSUMED: the regular expression b'\\n\\r?\\n' (pattern and flag read "
+                      "literally, refused if different) means find_blank_end of Gen/GenH11Lib.v (end of the leftmost match at or after the start index); Gen/GenH11Lib.v + GenH11P.v re-checked on every run")
         if "eff" in spec:
             tb.append("translator translate/eff2coq.py (ALL pyp0f modules -> may-write effect summaries): its abstract domain (origins Param / Glob / Fresh, self vs content, flow-insensitive union, "
                       "call-graph fixpoint, method resolution by name), and its explicit tables, printed into the generated file (gen_assumed_externals, gen_mutating_methods, gen_trusted_rebindings, gen_lib_reads): "
